@@ -85,6 +85,11 @@ Section Total.
       intros A. inversion A.
     - destruct (get s slot) as [u|] eqn:E; [|cbn [fst snd]; split; [exact Hs|discriminate]].
       cbn [fst snd]. split; [|discriminate]. apply slots_wf_put; [exact Hs|]. apply wf_ensure_sp, (Hs slot u E).
+    - destruct (get s slot) as [u|] eqn:E; [|cbn [fst snd]; split; [exact Hs|discriminate]].
+      destruct (get s (negb slot)) as [v|] eqn:Ev; [|cbn [fst snd]; split; [exact Hs|discriminate]].
+      pose proof (wf_ensure_sp v (Hs (negb slot) v Ev)) as Hw. destruct (ensure_sp c v) as [v' l]. cbn [fst snd] in *.
+      split; [|discriminate]. apply slots_wf_put; [apply slots_wf_put; assumption|].
+      apply wf_sp_update, wf_ensure_sp, (Hs slot u E).
   Qed.
 
   Fixpoint hfold (s : hstate) (ops : list op) : hstate :=
